@@ -8,6 +8,7 @@
  * the owner) are evaluated at detected quiescence.  See DESIGN.md 3 C08.
  */
 #include <iv_event.h>
+#include <time.h>
 #include "mt.h"
 
 #define MAXEV 64
@@ -23,6 +24,10 @@ struct evslot {
 };
 static struct evslot ev[MAXEV];
 static int actions_left[MAXLOOP];
+/* a descriptor per owner that posters make readable, so that kicks and descriptor readiness arrive together */
+static int noise[MAXLOOP][2];
+static struct iv_fd *noise_fd[MAXLOOP];
+static _Atomic long noise_writes, noise_entries;
 static _Atomic int posters_in_post, overlaps;
 static _Atomic long total_posts, total_entries, remote_posts, self_posts, unreg_pending, regs, reregs_after_zero;
 static int nposters, posts_per_poster;
@@ -174,8 +179,31 @@ static void event_cb(void *cookie)
 	}
 }
 
+static void noise_cb(void *cookie)
+{
+	struct loopthr *lt = cookie;
+	char buf[256];
+	while (__real_read(noise[lt->idx][0], buf, sizeof(buf)) > 0)
+		;
+	atomic_fetch_add(&noise_entries, 1);
+	if (rng_pct(&lt->rng, 30)) {
+		struct timespec ts = { 0, 1000 * (1 + (long)rng_n(&lt->rng, 200)) };
+		nanosleep(&ts, NULL);		/* the owner is busy outside its kernel wait for a moment */
+	}
+}
+
 static void scn_setup(struct loopthr *lt)
 {
+	if (__real_pipe(noise[lt->idx]) == 0) {
+		fcntl(noise[lt->idx][0], F_SETFL, O_NONBLOCK);
+		fcntl(noise[lt->idx][1], F_SETFL, O_NONBLOCK);
+		noise_fd[lt->idx] = malloc(sizeof(struct iv_fd));
+		IV_FD_INIT(noise_fd[lt->idx]);
+		noise_fd[lt->idx]->fd = noise[lt->idx][0];
+		noise_fd[lt->idx]->cookie = lt;
+		noise_fd[lt->idx]->handler_in = noise_cb;
+		iv_fd_register(noise_fd[lt->idx]);
+	}
 	int n = 1 + rng_n(&lt->rng, 6), i;
 	for (i = 0; i < n; i++)
 		slot_register(lt);
@@ -187,6 +215,13 @@ static void scn_ctl(struct loopthr *lt, char cmd)
 	int i;
 	if (cmd != 'T')
 		return;
+	if (noise_fd[lt->idx] != NULL) {
+		iv_fd_unregister(noise_fd[lt->idx]);
+		free(noise_fd[lt->idx]);
+		noise_fd[lt->idx] = NULL;
+		__real_close(noise[lt->idx][0]);
+		__real_close(noise[lt->idx][1]);
+	}
 	for (i = 0; i < MAXEV; i++)
 		if (atomic_load(&ev[i].state) == 1 && ev[i].owner == lt->idx)
 			slot_unregister(lt, i);
@@ -235,6 +270,10 @@ static void *poster_main(void *v)
 
 	while (n > 0 && guard++ < 100000) {
 		int i = rng_n(&p->rng, MAXEV);
+		if (rng_pct(&p->rng, 35) && atomic_load(&ev[i].state) == 1 && !atomic_load(&mt_phase)) {
+			if (__real_write(noise[ev[i].owner][1], "x", 1) > 0)
+				atomic_fetch_add(&noise_writes, 1);
+		}
 		if (slot_post(i, 100 + p->idx, -1)) {
 			n--;
 			if (rng_pct(&p->rng, 10))
@@ -334,11 +373,11 @@ int main(int argc, char **argv)
 		run_case(i, seed);
 	mon_printf("STAT method=%s cases=%llu posts=%llu handler_entries=%llu remote_posts=%llu owner_posts=%llu cases_with_overlapping_posts=%llu "
 		   "obligations=%llu discharged=%llu unregistered_while_pending=%llu events_registered=%llu kick_object_recreated=%llu "
-		   "final_quiescences=%llu shim_quiescences=%llu time_advances=%llu perturb_yield=%llu perturb_sleep=%llu threads_created=%llu injected=%llu violations=%d\n",
+		   "noise_writes=%llu noise_handler_entries=%llu final_quiescences=%llu shim_quiescences=%llu time_advances=%llu perturb_yield=%llu perturb_sleep=%llu threads_created=%llu injected=%llu violations=%d\n",
 		   g_method, (unsigned long long)S.cases, (unsigned long long)S.posts, (unsigned long long)S.entries,
 		   (unsigned long long)S.remote, (unsigned long long)S.self, (unsigned long long)S.overlaps_cases,
 		   (unsigned long long)S.obligations, (unsigned long long)S.discharged, (unsigned long long)S.unreg_pending,
-		   (unsigned long long)S.regs, (unsigned long long)S.zero_cross, (unsigned long long)S.quiescences,
+		   (unsigned long long)S.regs, (unsigned long long)S.zero_cross, (unsigned long long)noise_writes, (unsigned long long)noise_entries, (unsigned long long)S.quiescences,
 		   (unsigned long long)vt_stats.quiescences, (unsigned long long)vt_stats.time_advances,
 		   (unsigned long long)vt_stats.perturb_yield, (unsigned long long)vt_stats.perturb_sleep,
 		   (unsigned long long)vt_stats.threads_created, (unsigned long long)vt_stats.injected, mon_viol_total);
